@@ -49,14 +49,14 @@ def get_objective(n, kind):
 def cases(draw):
     n = NS[draw(st.integers(0, len(NS) - 1))]
     coef = draw(obj.coefficients(n))
-    x0 = onp.array(draw(st.lists(st.floats(-1, 1), min_size=n, max_size=n))) * draw(gen.logfloat(-3, 2))
+    x0 = onp.array(draw(st.lists(gen.floats(-1, 1), min_size=n, max_size=n))) * draw(gen.logfloat(-3, 2))
     entry = ['trm', 'nes', 'nes', 'trm'][draw(st.integers(0, 3))]
     pre = ['exact', 'stale', 'identity', 'exact'][draw(st.integers(0, 3))]
     s = {'tr_size': draw(gen.logfloat(-3, 3)), 'min_rel': draw(gen.logfloat(-12, -1)), 'eta1': draw(gen.logfloat(-12, -2)),
-         'eta2': draw(st.floats(0.05, 0.3)), 'eta3': draw(st.floats(0.35, 0.9)), 't1': draw(st.floats(0.1, 0.7)), 't2': draw(st.floats(1.2, 3.0)),
+         'eta2': draw(gen.floats(0.05, 0.3)), 'eta3': draw(gen.floats(0.35, 0.9)), 't1': draw(gen.floats(0.1, 0.7)), 't2': draw(gen.floats(1.2, 3.0)),
          'max_trust_iters': [100, 1, 2, 5, 100][draw(st.integers(0, 4))], 'max_cg_iters': [50, 1, 2, 5][draw(st.integers(0, 3))],
          'max_cum': [1000, 1, 5][draw(st.integers(0, 2))],
-         'tol_rel': draw(gen.logfloat(-12, -2)) if draw(st.integers(0, 3)) else draw(st.floats(0.05, 0.9)),
+         'tol_rel': draw(gen.logfloat(-12, -2)) if draw(st.integers(0, 3)) else draw(gen.floats(0.05, 0.9)),
          'precnorm': draw(st.booleans()), 'incremental': draw(st.integers(0, 5)) == 5}
     other = draw(obj.coefficients(n, family='spdquad', cond_exp=(0.0, 2.0)))      # parameters the objective holds before / stale preconditioner
     return {'n': n, 'coef': coef, 'x0': x0.tolist(), 'entry': entry, 'pre': pre, 'settings': s, 'other': other,
@@ -69,7 +69,7 @@ def convex_cases(draw):
     n = NS[draw(st.integers(0, len(NS) - 1))]
     fam = obj.CONVEX[draw(st.integers(0, 2))]
     coef = draw(obj.coefficients(n, family=fam, cond_exp=(0.0, 3.0)))
-    x0 = onp.array(draw(st.lists(st.floats(-1, 1), min_size=n, max_size=n))) * draw(gen.logfloat(-2, 1))
+    x0 = onp.array(draw(st.lists(gen.floats(-1, 1), min_size=n, max_size=n))) * draw(gen.logfloat(-2, 1))
     other = draw(obj.coefficients(n, family='spdquad', cond_exp=(0.0, 2.0)))
     return {'n': n, 'coef': coef, 'x0': x0.tolist(), 'entry': 'nes', 'pre': 'exact', 'settings': None, 'other': other,
             'warm': draw(st.booleans()), 'updatePrecond': True, 'default_domain': True}
